@@ -2,6 +2,7 @@
 use crate::engine::Ctx;
 
 pub mod c01;
+pub mod c02;
 pub mod c05;
 pub mod c09;
 pub mod c11;
@@ -18,6 +19,7 @@ pub mod targets;
 pub fn run(id: &str, ctx: &mut Ctx) -> bool {
     match id {
         "C01" => c01::run(ctx),
+        "C02" => c02::run(ctx),
         "C05" => c05::run(ctx),
         "C09" => c09::run(ctx),
         "C11" => c11::run(ctx),
@@ -67,5 +69,26 @@ pub fn bench() {
         let _ = s.run(100, 0);
         let el = t0.elapsed().as_secs_f64();
         println!("HMC {chains} chains: 100 steps x 10 leapfrogs {:.3}s => {:.1} us/leapfrog(batch)", el, el * 1e6 / 1000.0);
+    }
+}
+
+pub fn bench2() {
+    use crate::props::common::*;
+    use crate::props::targets::*;
+    use crate::engine::num::R;
+    use burn::prelude::*;
+    let x = [-0.15552001009253283f64, 0.7, -1.3];
+    for spec in [
+        Spec::StudentT { dim: 3, nu: R(3.3), scale: R(0.7) },
+        Spec::Quartic { dim: 3, c: R(0.9) },
+        Spec::Funnel,
+        Spec::Rosen2D { a: R(1.1), b: R(37.0) },
+    ] {
+        let d = spec.dim();
+        let t = HTarget::new(spec.clone());
+        let pos = tensor2::<B64>(&x[..d], 1, d).require_grad();
+        let lp = t.batch(pos.clone());
+        let g = to_vec(&Tensor::<B64, 2>::from_inner(pos.grad(&lp.backward()).unwrap()));
+        println!("{} logp lib {:e} ref {:e}; grad lib {:?} ref {:?}", spec.name(), to_vec(&lp)[0], spec.logp(&x[..d]), g, spec.grad(&x[..d]));
     }
 }
